@@ -1,9 +1,10 @@
 // C14 — value-log truncation keeps everything at or after the cut readable.
-//   Part A (explicit enumeration, run under the controlled scheduler with the default schedule so that a leaked
-//   lock shows up as a deadlock): every history shape up to a length x every cut point x IO-concurrency / chunk
-//   size configurations; truncate, check, truncate again, export everything, reopen, commit.
-//   Part B (E1): two committers whose values land out of id order + truncator + reader, all schedules up to the
-//   preemption bound.
+//
+//	Part A (explicit enumeration, run under the controlled scheduler with the default schedule so that a leaked
+//	lock shows up as a deadlock): every history shape up to a length x every cut point x IO-concurrency / chunk
+//	size configurations; truncate, check, truncate again, export everything, reopen, commit.
+//	Part B (E1): two committers whose values land out of id order + truncator + reader, all schedules up to the
+//	preemption bound.
 package main
 
 import (
@@ -127,10 +128,10 @@ func classify(s string) string {
 }
 
 type caseA struct {
-	Cfg   cfg
-	Hist  []int // shape index per tx
-	Cut   int
-	Cut2  int
+	Cfg  cfg
+	Hist []int // shape index per tx
+	Cut  int
+	Cut2 int
 }
 
 func (k caseA) String() string {
@@ -234,7 +235,7 @@ func runA(k caseA, dir string) {
 
 // ---------- part B: schedules ----------
 
-func scenarioB(name string, cf cfg, lens [2]int) sched.Scenario {
+func scenarioB(name string, cf cfg, lens [2][]int) sched.Scenario {
 	return sched.Scenario{Name: name, MaxSteps: 400000, Body: func(dir string) string {
 		st, err := store.Open(dir, opts(cf))
 		if err != nil {
@@ -255,7 +256,7 @@ func scenarioB(name string, cf cfg, lens [2]int) sched.Scenario {
 		for w := 0; w < 2; w++ {
 			w := w
 			vsched.Spawn(func() {
-				h, err := commitShape(st, 4+w, []int{lens[w]})
+				h, err := commitShape(st, 4+w, lens[w])
 				if err != nil {
 					res[w] = "err:" + err.Error()
 					return
@@ -284,11 +285,18 @@ func scenarioB(name string, cf cfg, lens [2]int) sched.Scenario {
 				// same value log) before the cut tx's: the writer was still in flight when the tombstone was computed
 				cause := "other"
 				tx := store.NewTx(st.MaxTxEntries(), st.MaxKeyLen())
-				if st.ReadTx(cut, false, tx) == nil && len(tx.Entries()) > 0 {
-					cutOff := tx.Entries()[0].VOff()
-					if st.ReadTx(id, false, tx) == nil && len(tx.Entries()) > 0 && id > cut && tx.Entries()[0].VOff() < cutOff {
-						cause = "values-appended-before-the-cut-tx-by-a-later-committer"
+				firstOff := func(id uint64) int64 { // offset of the first non-empty value (-1: none)
+					if st.ReadTx(id, false, tx) == nil {
+						for _, e := range tx.Entries() {
+							if e.VLen() > 0 {
+								return e.VOff()
+							}
+						}
 					}
+					return -1
+				}
+				if cutOff, off := firstOff(cut), firstOff(id); id > cut && cutOff >= 0 && off >= 0 && off < cutOff {
+					cause = "values-appended-before-the-cut-tx-by-a-later-committer"
 				}
 				sched.Report("value-lost-at-or-after-cut cause="+cause, fmt.Sprintf("TruncateUptoTx(%d) raced with committers: tx %d (>= cut) is unreadable afterwards: %v (results %v)", cut, id, err, res))
 				break
@@ -327,12 +335,14 @@ func main() {
 			c.Finish("replay", false)
 		}
 	}
-	bNames := []string{"race-fs32-io1", "race-fs32-io2", "race-fs64-io1"}
-	scs := []sched.Scenario{scenarioB(bNames[0], cfg{32, 1}, [2]int{20, 30}), scenarioB(bNames[1], cfg{32, 2}, [2]int{20, 30}), scenarioB(bNames[2], cfg{64, 1}, [2]int{30, 30})}
+	// (…-e0 / …-e1: one committer's transaction starts with an empty value, which carries no value-log offset)
+	bNames := []string{"race-fs32-io1", "race-fs32-io2", "race-fs64-io1", "race-fs32-io1-e0", "race-fs32-io1-e1", "race-fs32-io2-e0"}
+	scs := []sched.Scenario{scenarioB(bNames[0], cfg{32, 1}, [2][]int{{20}, {30}}), scenarioB(bNames[1], cfg{32, 2}, [2][]int{{20}, {30}}), scenarioB(bNames[2], cfg{64, 1}, [2][]int{{30}, {30}}),
+		scenarioB(bNames[3], cfg{32, 1}, [2][]int{{0, 30}, {30}}), scenarioB(bNames[4], cfg{32, 1}, [2][]int{{30}, {0, 30}}), scenarioB(bNames[5], cfg{32, 2}, [2][]int{{0, 30}, {30}})}
 	// ---- part A in shard processes (the scheduler is process-global), merged by the parent
 	if !c.IsChild() && c.ReplayPath == "" {
 		var jobs []sched.Job
-		bound, budget := 1, 20*time.Second
+		bound, budget := 1, 12*time.Second
 		if c.Thorough() {
 			bound, budget = 2, 3*time.Minute
 		}
